@@ -565,6 +565,27 @@ func buildModule(o *opInfo, imm []byte, constTuples [][]v128) []byte {
 		b = append(b, wb.LocalGet(np+nExtraInt+nExtraFloat)...)
 		m.AddFunc(wb.Func{Params: ps, Results: []byte{o.result}, Locals: []byte{o.result}, Body: b, Export: "pr"})
 	}
+	if o.result == wb.I32 {
+		// "consumer" placement: the i32 result is not returned but consumed in the same function by instructions
+		// that look at the whole value slot / register (comparison with an operand passed at run time, use as a
+		// memory address): an unclean upper half of a 32-bit result is invisible in a returned (truncated) value
+		np := uint32(len(o.params))
+		ps := append(append([]byte{}, o.params...), wb.I32)
+		var pre []byte
+		for i := range o.params {
+			pre = append(pre, wb.LocalGet(uint32(i))...)
+		}
+		pre = append(pre, opBody(o, imm)...)
+		for _, c := range []struct {
+			name string
+			opc  byte
+		}{{"q_ne", wasm.OpcodeI32Ne}, {"q_eq", wasm.OpcodeI32Eq}, {"q_geu", wasm.OpcodeI32GeU}, {"q_leu", wasm.OpcodeI32LeU}, {"q_ges", wasm.OpcodeI32GeS}} {
+			m.AddFunc(wb.Func{Params: ps, Results: []byte{wb.I32}, Export: c.name, Body: wb.Cat(pre, wb.LocalGet(np), []byte{c.opc})})
+		}
+		m.AddFunc(wb.Func{Params: ps, Results: []byte{wb.I32}, Export: "q_eqz", Body: wb.Cat(pre, wb.LocalGet(np), []byte{wasm.OpcodeI32Xor, wasm.OpcodeI32Eqz})})
+		// address use: result + static offset 1 must trap for 0xffffffff and beyond the single page
+		m.AddFunc(wb.Func{Params: o.params, Results: []byte{wb.I32}, Export: "q_addr", Body: wb.Cat(pre, wb.MemArg(wasm.OpcodeI32Load8U, 0, 1))})
+	}
 	nop := m.AddFunc(wb.Func{})
 	{
 		np := uint32(len(o.params))
@@ -822,6 +843,13 @@ func immsFor(r *rand.Rand, o *opInfo) [][]byte {
 	return imms
 }
 
+func b2s(b bool) string {
+	if b {
+		return "1"
+	}
+	return "0"
+}
+
 func immString(imm []byte) string {
 	if imm == nil {
 		return "-"
@@ -1056,6 +1084,12 @@ func runOp(r *rand.Rand, o *opInfo, engines []engine, budget int) {
 					mods[i].Memory().Write(0, buf)
 				}
 				s, res := call(mods[i], fn, args)
+				if res != nil && e.name == "interpreter" && (o.result == wb.I32 || o.result == wb.F32) && res[0]>>32 != 0 {
+					// (the compiler's dirty upper halves are the known finding F24 of C08; the interpreter keeps 32-bit
+					// values zero-extended in 64-bit slots and its own instructions rely on that)
+					rep.Violate(hx.Violation{Kind: "impl-violation", Signature: fmt.Sprintf("C05:interpreter-32-bit-result-not-zero-extended:%s", o.name),
+						What: fmt.Sprintf("%s (%s operands) on the interpreter returns the slot %#x: upper half not zero", o.name, place, res[0]), Input: o.name})
+				}
 				if res != nil {
 					s = resString(o.result, res)
 				}
@@ -1073,9 +1107,50 @@ func runOp(r *rand.Rand, o *opInfo, engines []engine, budget int) {
 			}
 			rep.Case(o.name + "/" + place + "/" + q)
 		}
+		consumers := func(tup []v128) {
+			q := query(o, immStr, tup)
+			want := orc.Ask(q)
+			if !strings.HasPrefix(want, "v:") {
+				return // trap or not modelled
+			}
+			var w uint64
+			fmt.Sscanf(want[2:], "%x", &w)
+			w32 := uint32(w)
+			for i, e := range engines {
+				for _, c := range []struct {
+					fn   string
+					z    uint32
+					want string // "" = trap expected
+				}{{"q_ne", w32, "0"}, {"q_eq", w32, "1"}, {"q_geu", w32, "1"}, {"q_leu", w32, "1"}, {"q_ges", w32, "1"}, {"q_eqz", w32, "1"},
+					{"q_ne", w32 ^ 0x80000000, "1"}, {"q_geu", 0xffffffff, b2s(w32 == 0xffffffff)}, {"q_leu", 0, b2s(w32 == 0)}} {
+					s, res := call(mods[i], c.fn, append(flat(o.params, tup), uint64(c.z)))
+					got := s
+					if res != nil {
+						got = fmt.Sprint(uint32(res[0]))
+					}
+					rep.Case(o.name + "/consumer/" + c.fn + "/" + q)
+					if got != c.want {
+						rep.Violate(hx.Violation{Kind: "impl-violation", Signature: fmt.Sprintf("C05:wrong-result-when-consumed:%s:%s", o.name, e.name),
+							What:  fmt.Sprintf("%s on %s: the specification gives %#x, but %s applied to the result and %#x in the same function answers %s (expected %s): the value the instruction leaves behind is not the canonical 32-bit value", o.name, e.name, w32, c.fn[2:], c.z, got, c.want),
+							Input: q + " ; " + c.fn, Expected: c.want, Actual: got})
+					}
+				}
+				// as an address with static offset 1 in a one-page memory
+				s, res := call(mods[i], "q_addr", flat(o.params, tup))
+				inRange := uint64(w32)+1 < 65536
+				if inRange != (res != nil) {
+					rep.Violate(hx.Violation{Kind: "impl-violation", Signature: fmt.Sprintf("C05:wrong-result-when-consumed:%s:%s", o.name, e.name),
+						What:  fmt.Sprintf("%s on %s: result %#x used as the address of i32.load8_u offset=1 in a one-page memory: in range = %v, but the access ended with %q / %v", o.name, e.name, w32, inRange, s, res),
+						Input: q + " ; q_addr"})
+				}
+			}
+		}
 		for k, tup := range ts {
 			check("param", tup, "p", flat(o.params, tup), false)
 			check("memory", tup, "m", nil, true)
+			if o.result == wb.I32 {
+				consumers(tup)
+			}
 			if k%3 == 0 {
 				check("spill+merge", tup, "sp", append(flat(o.params, tup), 0), false)
 			}
